@@ -32,7 +32,7 @@ IRREGULAR = [
 ]
 UNITS_QUICK = [('h', 'd'), ('h', 'min')]
 UNITS_THOROUGH = [('h', 'd'), ('h', 'min'), ('d', 'min'), ('d', 'h')]
-UNIT_SHAPES = ['storage', 'transport_take', 'plant', 'scaled', 'split', 'msd']
+UNIT_SHAPES = ['storage', 'transport_take', 'plant', 'scaled', 'split', 'msd', 'linked', 'plant_profiles', 'chp']
 BOUNDS = dict(quick='unit pairs %s x shapes %s (grids 6h/12h/d so that durations are exactly representable); irregular grids %s' % (UNITS_QUICK, UNIT_SHAPES, [c[0] for c in IRREGULAR]),
               thorough='unit pairs %s' % UNITS_THOROUGH)
 OUTSIDE = ['construction of the grid points by pandas (date_range, DST rules): executed concretely', 'durations that are not exactly representable in both units (EAO rounds them up, documented)']
@@ -47,6 +47,10 @@ def cases(tier, seed):
     for cid, shape, kw in IRREGULAR:
         out.append(('irregular_' + cid, dict(kind='irregular', shape=shape, kw=kw)))
     # coarse-frequency assets on a grid with unequal fine steps: volumes follow each minor step's own length (C13 machinery)
+    # maximum holding time on irregular grids: elapsed time, not a number of steps (C05 machinery: soundness and completeness of the windows)
+    from . import c05
+    for cid, kw, level, opts in (c05.MSD_IRREGULAR if tier == 'thorough' else c05.MSD_IRREGULAR[:3]):
+        out.append(('irregular_' + cid, dict(kind='c05', shape='contract_storage', kw=dict(kw), level=level, opts=opts)))
     out.append(('irregular_coarse_contract_dst', dict(kind='coarse13', opt='coarse', kind13='contract', T=4, coarse='2d', freq=('d', '2021-03-27', '2021-03-31', 'CET'))))
     out.append(('irregular_coarse_transport_dst', dict(kind='coarse13', opt='coarse', kind13='transport', T=4, coarse='2d', eff=0.5, freq=('d', '2021-10-30', '2021-11-03', 'CET'))))
     return out
@@ -113,6 +117,49 @@ def build_unit(D, shp, unit):
         m = eao.assets.SimpleContract(name='mkt', nodes=nA, price='p', min_cap=rate('mmin', hi=0), max_cap=rate('mmax', lo=0))
         pf = eao.portfolio.Portfolio([sa, m])
         prices = shapes.prices_for(D, ['p'], T)
+    elif shp == 'linked':
+        # LinkedAsset: time_back / time_forward / asset2_time_already_running are durations in the main time unit
+        T = 4
+        tg = shapes.grid(T, '6h', unit)
+        nP = shapes.nodes('P')[0]
+        def plant(nm, price, **kw):
+            mn = rate(nm + '_min', lo_strict=0); mx = rate(nm + '_max', lo=0)
+            D.assume(mn <= mx)
+            return eao.assets.Plant(name=nm, nodes=[nP], price=price, min_cap=mn, max_cap=mx, start_costs=D(nm + '_sc', lo=0),
+                                    running_costs=rate(nm + '_rc', lo=0), **kw)
+        ga = plant('ga', 'p')
+        gb = plant('gb', 'q', min_runtime=dur(12.0), time_already_running=dur(6.0))
+        la = eao.portfolio.LinkedAsset(eao.portfolio.Portfolio([ga, gb]), asset1_variable=('ga', 'disp', 'P'), asset2_variable=('gb', 'bool_on', None),
+                                       name='link', nodes=nP, time_back=dur(12.0), time_forward=dur(6.0), asset2_time_already_running=dur(6.0))
+        m = eao.assets.SimpleContract(name='mP', nodes=nP, price='r', min_cap=rate('mmin', hi=0), max_cap=rate('mmax', lo=0))
+        pf = eao.portfolio.Portfolio([la, m])
+        prices = shapes.prices_for(D, ['p', 'q', 'r'], T)
+    elif shp in ('plant_profiles', 'chp'):
+        T = 4
+        tg = shapes.grid(T, '6h', unit)
+        heat = shp == 'chp'
+        mn = rate('pmin', lo_strict=0); mx = rate('pmax', lo=0)
+        D.assume(mn <= mx)
+        nH = shapes.nodes('H')[0]
+        kw = {}
+        if not heat:
+            # start / shutdown profiles given per grid step (ramp_freq = grid frequency): rates like the capacities
+            lo0, hi0, lo1, hi1 = rate('sr_lo0', lo=0), rate('sr_hi0', lo=0), rate('sr_lo1', lo=0), rate('sr_hi1', lo=0)
+            sdl, sdh = rate('sd_lo0', lo=0), rate('sd_hi0', lo=0)
+            for a_, b_ in ((lo0, hi0), (lo1, hi1), (sdl, sdh), (hi0, mx), (hi1, mx), (sdh, mx)):
+                D.assume(a_ <= b_)
+            kw.update(start_ramp_lower_bounds=[lo0, lo1], start_ramp_upper_bounds=[hi0, hi1], shutdown_ramp_lower_bounds=[sdl],
+                      shutdown_ramp_upper_bounds=[sdh], ramp_freq='6h', ramp=rate('ramp', lo_strict=0), time_already_off=dur(6.0))
+            pl = eao.assets.Plant(name='pl', nodes=[nA], price='p', min_cap=mn, max_cap=mx, start_costs=D('sc', lo=0), running_costs=rate('rc', lo=0), **kw)
+        else:
+            pl = eao.assets.CHPAsset(name='pl', nodes=[nA, nH], price='p', min_cap=mn, max_cap=mx, start_costs=D('sc', lo=0), running_costs=rate('rc', lo=0),
+                                     conversion_factor_power_heat=0.25, max_share_heat=2.0, ramp=rate('ramp', lo_strict=0), last_dispatch=rate('last', lo=0),
+                                     min_downtime=dur(12.0), time_already_running=dur(12.0))
+        assets = [pl, eao.assets.SimpleContract(name='mA', nodes=nA, price='q', min_cap=rate('amin', hi=0), max_cap=rate('amax', lo=0))]
+        if heat:
+            assets.append(eao.assets.SimpleContract(name='mH', nodes=nH, price='g', min_cap=rate('hmin', hi=0), max_cap=rate('hmax', lo=0)))
+        pf = eao.portfolio.Portfolio(assets)
+        prices = shapes.prices_for(D, ['p', 'q', 'g'], T)
     else:
         raise KeyError(shp)
     if shp == 'split':
@@ -130,6 +177,11 @@ def run_case(case_id, tier, seed, kind, **kw):
     if kind == 'coarse13':
         from . import c13
         res = c13.run_case(case_id, tier, seed, **_c13_kw(kw))
+        res['prop'] = PROP
+        return res
+    if kind == 'c05':
+        from . import c05
+        res = c05.run_case(case_id, tier, seed, **kw)
         res['prop'] = PROP
         return res
     rec = lpsem.Rec(PROP, case_id)
@@ -219,6 +271,9 @@ def observe(case, kwargs, env, rq):
     if kind == 'coarse13':
         from . import c13
         return c13.observe(case, _c13_kw(kw), env, rq)
+    if kind == 'c05':
+        from . import c05
+        return c05.observe(case, kw, env, rq)
     if kind == 'irregular':
         sc = scen.run(D, kw['shape'], kw['kw'], None, False, env=env)
         if rq.get('kind') != 'replay':
@@ -241,6 +296,9 @@ def judge(case, kwargs, cand, ans):
     if kwargs.get('kind') == 'coarse13':
         from . import c13
         return c13.judge(case, _c13_kw({k: v for k, v in kwargs.items() if k != 'kind'}), cand, ans)
+    if kwargs.get('kind') == 'c05':
+        from . import c05
+        return c05.judge(case, {k: v for k, v in kwargs.items() if k != 'kind'}, cand, ans)
     if kwargs.get('kind') == 'irregular':
         return embed_ref.judge(cand, ans)
     from .. import replay
